@@ -1018,6 +1018,20 @@ func (e *SpecEnv) trCall(x *ECall) Val {
 		return Val{T: c.floatLit(posInf), Ty: tF}
 	case "negInf":
 		return Val{T: c.floatLit(negInf), Ty: tF}
+	case "implements":
+		// implements(x, I): the dynamic type of the interface value x implements interface type I
+		// (the condition of `_, ok := x.(I)`)
+		if len(x.Args) == 2 {
+			v := e.tr(x.Args[0])
+			if te := exprToType(x.Args[1]); te != nil {
+				if t := c.resolveType(te, e.pkg); t != nil {
+					if it, ok := t.Underlying().(*types.Interface); ok {
+						return Val{T: c.implementsTerm(v.T, it), Ty: tBool}
+					}
+				}
+			}
+		}
+		return e.errorf("implements(x, InterfaceType) expected")
 	case "biteq":
 		a, b := e.tr(x.Args[0]), e.tr(x.Args[1])
 		if c.mode == ModeFP && a.Ty != nil {
